@@ -65,6 +65,8 @@ def tr_bool(tr, n):
             return "(BOr %s %s)" % (tr_bool(tr, n["inner"][0]), tr_bool(tr, n["inner"][1]))
     if k == "UnaryOperator" and n.get("opcode") == "!":
         return "(BNot %s)" % tr_bool(tr, n["inner"][0])
+    if k in ("MemberExpr", "DeclRefExpr"):
+        return "(BNe %s (Const (0 # 1)))" % leaf.coq_of(tr.tr(n))          # C truthiness of a bool / number
     raise LeafError("unsupported guard expression: " + leaf.render(n))
 
 
@@ -384,6 +386,29 @@ def gen_phase_init():
     return txt
 
 
+# ------------------------------------------------------------------------------------------------ caller-side cache of phi
+def gen_phi_cache():
+    """prep.cpp: adjust_setup_pure_phases (gas as EQUILIBRIUM_PHASES) and adjust_setup_solution (gas as a solution phase boundary)
+    call calc_PR(phase_ptrs, p, t, 0) only when the phase's cached Peng-Robinson state is not valid for (p, t).  Emits the guard of
+    each call as a bexpr over [pr_in; p; pr_p; t; pr_tk] and the temperature handed to calc_PR."""
+    src = os.path.join(vlib.REPO, "src/phreeqcpp/prep.cpp")
+    txt = ""
+    for fname, pre in (("adjust_setup_pure_phases", "pp_"), ("adjust_setup_solution", "sb_")):
+        fn = leaf.load_function(src, fname)
+        calls = [(c, r) for c, r in _calls_under(fn, "calc_PR")]
+        if len(calls) != 1:
+            raise LeafError("%s: expected exactly one call of calc_PR, found %d" % (fname, len(calls)))
+        conds, rendered = calls[0]
+        nodes = if_node_of(fn, conds[-1])
+        if len(nodes) != 1:
+            raise LeafError("%s: guard of calc_PR not found" % fname)
+        tr = leaf._Translator(fn, [PH + "pr_in", "p", PH + "pr_p", "t", PH + "pr_tk"], {}, {}, False)
+        txt += "Definition %sphi_cache_guard : bexpr :=\n  %s.\n" % (pre, tr_bool(tr, nodes[0]))
+        txt += "Definition %scalc_PR_call : string := %s.\n" % (pre, cs(rendered.replace("<CXXConstructExpr>", "phase_ptrs")))
+        txt += "Definition %scalc_PR_outer_conds : list string := %s.\n" % (pre, strlist(conds[:-1]))
+    return txt
+
+
 # ------------------------------------------------------------------------------------------------ reader of GAS_BINARY_PARAMETERS
 def gen_bip_reader():
     """read.cpp: read_gas_binary_parameters.  calc_PR looks k_ij up as (name_i, name_j) in a double loop, so the reader must keep
@@ -510,7 +535,7 @@ def _generate():
     text = leaf.emit_coq(leaves, header="C19: calc_PR (prep.cpp, gases.cpp), calc_gas_pressures, mb_gases (model.cpp), "
                          "calc_fixed_volume_gas_pressures, calc_gas_binary_parameter (gases.cpp)", extra="")
     text = text.replace("From IPV Require Import Base.RExpr.", "From IPV Require Import Base.RExpr C19.BExpr.")
-    text += "Open Scope Q_scope.\n" + extra_pr + extra_mb + extra_b + gen_phase_init() + gen_bip_reader()
+    text += "Open Scope Q_scope.\n" + extra_pr + extra_mb + extra_b + gen_phase_init() + gen_bip_reader() + gen_phi_cache()
     vlib.write_if_changed(os.path.join(vlib.COQ, "Gen", "Gen_C19_gases.v"), text)
     return {l.name: l for l in leaves}, rows
 
